@@ -371,6 +371,221 @@ def generate_life():
     return "\n".join(out)
 
 
+# ------------------------------------------------------------------------------------------ C18
+
+class Subst(ast.NodeTransformer):
+    """replace sub-expressions (by their unparsed text) with plain names, so that pyx.Tr can translate the rest"""
+
+    def __init__(self, table):
+        self.table, self.used = table, set()
+
+    def visit(self, node):
+        if isinstance(node, ast.expr):
+            t = u(node)
+            if t in self.table:
+                self.used.add(t)
+                return ast.Name(id=self.table[t], ctx=ast.Load())
+        return self.generic_visit(node)
+
+
+def tr_bool(expr, table, where):
+    sub = Subst(table)
+    e = sub.visit(ast.parse(u(expr), mode="eval").body)
+    env = {v: (v, "Z") for v in table.values()}
+    t, ty = Tr(env).expr(e)
+    expect(ty == "bool", "%s: not a boolean expression: %s" % (where, u(expr)))
+    return t
+
+
+def raises_value_error(stmts, where):
+    expect(stmts and isinstance(stmts[-1], ast.Raise) and isinstance(stmts[-1].exc, ast.Call)
+           and u(stmts[-1].exc.func) == "ValueError", "%s: branch does not end in raise ValueError" % where)
+    for s in stmts[:-1]:
+        expect(u(s) == "self.status = ExperimentStatus.ERROR", "%s: unexpected statement %s" % (where, u(s)))
+
+
+def gen_validate(cls):
+    fn = find_func(cls, "_validate")
+    b = body_nodoc(fn)
+    expect(len(b) >= 5, "_validate: too short")
+    # shots
+    s0 = b[0]
+    expect(isinstance(s0, ast.If) and not s0.orelse, "_validate: first statement is not the shots check")
+    raises_value_error(s0.body, "_validate/shots")
+    shots = tr_bool(s0.test, {"self.options.shots": "shots", "self.configuration.max_shots": "maxs"}, "_validate/shots")
+    # loop
+    loop = b[1]
+    expect(isinstance(loop, ast.For) and u(loop.target) == "gate" and u(loop.iter) == "self.circuit.gates"
+           and not loop.orelse, "_validate: loop header")
+    lb = loop.body
+    expect([u(x) for x in lb[:4]] == [
+        "gate_openQASM = gate.as_qasm()", "gate_name = gate_openQASM['name']", "gate_qubits = gate_openQASM['qubits']",
+        "gate_params = gate_openQASM['params'] if 'params' in gate_openQASM else []"], "_validate: loop prologue")
+    expect(len(lb) == 5 and isinstance(lb[4], ast.If) and not lb[4].orelse and u(lb[4].test) == "gate_name != 'measure'",
+           "_validate: loop body is not `if gate_name != 'measure': ...`")
+    inner = lb[4].body
+    tests, k = [], 0
+    want = ["gate_name not in self.configuration.basis_gates", None, "gate_properties is None",
+            "not gate_properties.check_qubits(gate_qubits)", "not gate_properties.check_params(gate_params)",
+            "len(gate_qubits) > 1 and self.configuration.coupling_map"]
+    expect(len(inner) == 6, "_validate: expected 6 statements in the gate branch, got %d" % len(inner))
+    for st, w in zip(inner, want):
+        if w is None:
+            expect(u(st) == "gate_properties = self.configuration.get_gate_by_name(gate_name)", "_validate: gate lookup")
+            continue
+        expect(isinstance(st, ast.If) and not st.orelse and u(st.test) == w, "_validate: expected `if %s`, got %s"
+               % (w, u(st).split("\n")[0]))
+        if w.startswith("len(gate_qubits)"):
+            expect([u(x) for x in st.body[:1]] == ["qubit_pairs = list(combinations(gate_qubits, 2))"] and len(st.body) == 2
+                   and isinstance(st.body[1], ast.For) and u(st.body[1].target) == "qubit_pair"
+                   and u(st.body[1].iter) == "qubit_pairs" and len(st.body[1].body) == 1
+                   and isinstance(st.body[1].body[0], ast.If) and not st.body[1].body[0].orelse
+                   and u(st.body[1].body[0].test) == "list(qubit_pair) not in self.configuration.coupling_map",
+                   "_validate: coupling check")
+            raises_value_error(st.body[1].body[0].body, "_validate/coupling")
+        else:
+            raises_value_error(st.body, "_validate/" + w)
+    # after the loop
+    rest = b[2:]
+    guard = False
+    if isinstance(rest[0], ast.If):
+        expect(u(rest[0].test) in ("not self.circuit.gates", "len(self.circuit.gates) == 0") and not rest[0].orelse,
+               "_validate: unexpected statement after the loop: %s" % u(rest[0]).split("\n")[0])
+        raises_value_error(rest[0].body, "_validate/empty")
+        guard = True
+        rest = rest[1:]
+    expect(len(rest) == 3, "_validate: expected qubits / qubits_index / range check after the loop")
+    q = rest[0]
+    expect(isinstance(q, (ast.Assign, ast.AnnAssign)) and u(q.target if isinstance(q, ast.AnnAssign) else q.targets[0]) == "qubits",
+           "_validate: qubits = ...")
+    src = u(q.value)
+    expect(src in ("gate.particles()", "self.circuit.particles()"), "_validate: range check looks at %s" % src)
+    scope = "ScopeLast" if src == "gate.particles()" else "ScopeAll"
+    expect(u(rest[1]) == "qubits_index = [q.index for q in qubits]", "_validate: qubits_index")
+    r = rest[2]
+    expect(isinstance(r, ast.If) and not r.orelse, "_validate: range check")
+    raises_value_error(r.body, "_validate/range")
+    rng = tr_bool(r.test, {"len(qubits)": "l", "min(qubits_index)": "mn", "max(qubits_index)": "mx",
+                           "self.configuration.n_qubits": "n"}, "_validate/range")
+    return ("Definition gen_shots_refused (shots maxs : Z) : bool := %s.\n" % shots
+            + "Definition gen_scope : scope := %s.\n" % scope
+            + "Definition gen_empty_guard : bool := %s.\n" % ("true" if guard else "false")
+            + "Definition gen_range_refused (l mn mx n : Z) : bool := %s.\n" % rng)
+
+
+def gen_pconf():
+    tree = parse(F_PCONF)
+    gp = find_class(tree, "GateProperties")
+    cq = body_nodoc(find_func(gp, "check_qubits"))
+    expect(len(cq) == 1 and u(cq[0]) == "return qubits in self.qubits", "check_qubits: unexpected body")
+    cp = body_nodoc(find_func(gp, "check_params"))
+    expect(len(cp) == 1 and isinstance(cp[0], ast.Return), "check_params: unexpected body")
+    t = tr_bool(cp[0].value, {"len(params)": "a", "len(self.parameters)": "b"}, "check_params")
+    pc = find_class(tree, "ProcessorConfiguration")
+    gg = body_nodoc(find_func(pc, "get_gate_by_name"))
+    expect([u(x) for x in gg] == ["for gate in self.gates:\n    if gate.name == gate_name:\n        return gate", "return None"],
+           "get_gate_by_name: unexpected body")
+    return "Definition gen_params_ok (a b : Z) : bool := %s.\n" % t
+
+
+def gen_ctrl_guard():
+    tree = parse("src/qib/operator/gates.py")
+    fn = find_func(find_class(tree, "ControlledGate"), "as_qasm")
+    b = body_nodoc(fn)
+    first = b[0]
+    expect(isinstance(first, ast.If), "ControlledGate.as_qasm: first statement")
+    if u(first.test) == "self.ncontrols == 1":
+        checked = False
+    else:
+        expect(u(first.test) in ("self.ctrl_state != self.ncontrols * [1]", "self.ctrl_state != [1] * self.ncontrols",
+                                 "any((s != 1 for s in self.ctrl_state))", "not all((s == 1 for s in self.ctrl_state))")
+               and not first.orelse and [u(x) for x in first.body] == ["return super().as_qasm()"]
+               and len(b) > 1 and isinstance(b[1], ast.If) and u(b[1].test) == "self.ncontrols == 1",
+               "ControlledGate.as_qasm: unexpected guard %s" % u(first.test))
+        checked = True
+    expect(u(b[-1]) == "return super().as_qasm()", "ControlledGate.as_qasm: fallback")
+    return "Definition gen_ctrl_std_checked : bool := %s.\n" % ("true" if checked else "false")
+
+
+def check_qobj_shapes(cls):
+    fn = find_func(cls, "as_qasm")
+    b = body_nodoc(fn)
+    expect(u(b[0].value if isinstance(b[0], ast.AnnAssign) else b[0].value) == "self.circuit.particles()"
+           and u(b[1].value) == "self.circuit.clbits()", "WMIExperiment.as_qasm: qubits/clbits")
+    d = b[2].value
+    expect(isinstance(d, ast.Dict), "WMIExperiment.as_qasm: qobj is not a dict literal")
+    want = {"n_qubits": "len(qubits)", "memory_slots": "len(clbits)", "qreg_sizes": "{'q': len(qubits)}",
+            "creg_sizes": "{'c': len(clbits)}", "instructions": "self.instructions",
+            "qubit_labels": "{'qubits': [['q', qubit.index] for qubit in qubits]}",
+            "clbit_labels": "{'clbits': [['c', clbit] for clbit in clbits]}",
+            "shots": "self.options.shots", "init_qubits": "self.options.init_qubits",
+            "do_emulation": "self.options.do_emulation"}
+    seen = {}
+    for node in ast.walk(d):
+        if isinstance(node, ast.Dict):
+            for k, v in zip(node.keys, node.values):
+                if isinstance(k, ast.Constant) and k.value in want:
+                    expect(u(v) == want[k.value], "WMIExperiment.as_qasm: %s is %s" % (k.value, u(v)))
+                    seen[k.value] = seen.get(k.value, 0) + 1
+    expect(seen.get("n_qubits") == 3 and seen.get("memory_slots") == 3 and all(k in seen for k in want),
+           "WMIExperiment.as_qasm: header fields %s" % seen)
+    expect(u(b[3]) == "qobj['config'].update(self.options.optional())" and u(b[4]) == "return qobj",
+           "WMIExperiment.as_qasm: tail")
+    res = find_class(parse(F_WMIEXP), "WMIExperimentResults")
+    gc = body_nodoc(find_func(res, "get_counts"))
+    expect(len(gc) == 2 and isinstance(gc[0], ast.If) and u(gc[0].test) == "binary"
+           and [u(x) for x in gc[0].body] == [
+               "n_qubits = len(self._experiment_ref.circuit.particles())",
+               "return {str(bin(int(key, 16))).split('b')[1].zfill(n_qubits): value for key, value in self._counts.items()}"]
+           and u(gc[1]) == "return self._counts", "get_counts: unexpected body")
+    circ = find_class(parse("src/qib/circuit/circuit.py"), "Circuit")
+    expect([u(x) for x in body_nodoc(find_func(circ, "particles"))] == [
+        "wires_set = set()", "for gate in self.gates:\n    wires_set.update(gate.particles())",
+        "return sorted(wires_set, key=lambda p: p.index)"], "Circuit.particles: unexpected body")
+    expect([u(x) for x in body_nodoc(find_func(circ, "clbits"))] == [
+        "bits_set = set()",
+        "for gate in self.gates:\n    if type(gate) is MeasureInstruction:\n        bits_set.update(gate.memory())",
+        "return sorted(bits_set)"], "Circuit.clbits: unexpected body")
+    expect([u(x) for x in body_nodoc(find_func(circ, "as_qasm"))] == [
+        "instructions = []", "for gate in self.gates:\n    instructions.append(gate.as_qasm())",
+        "return instructions"], "Circuit.as_qasm: unexpected body")
+
+
+def coq_cfg(name, cfg):
+    def zl(l):
+        return "[" + "; ".join(zlit(int(x)) for x in l) + "]"
+    gates = []
+    for g in cfg.gates:
+        gates.append("{| gp_name := %s; gp_qubits := [%s]; gp_nparams := %d |}"
+                     % (codes(g.name), "; ".join(zl(q) for q in g.qubits), len(g.parameters)))
+    for v in (cfg.max_shots, cfg.n_qubits):
+        expect(isinstance(v, int) and not isinstance(v, bool), "%s: non-integer limit %r" % (name, v))
+    return ("Definition %s : config :=\n  {| c_basis := [%s];\n     c_coupling := [%s];\n     c_gates := [\n       %s];\n"
+            "     c_max_shots := %s; c_nqubits := %s |}.\n"
+            % (name, "; ".join(codes(b) for b in cfg.basis_gates), "; ".join(zl(p) for p in cfg.coupling_map),
+               ";\n       ".join(gates), zlit(cfg.max_shots), zlit(cfg.n_qubits)))
+
+
+def generate_qobj():
+    cls = find_class(parse(F_WMIEXP), "WMIExperiment")
+    gen_initial(cls)          # __init__ = _initialize(); _validate()   (shape only)
+    gen_processors()          # submit_experiment builds the experiment before _send_request (shape only)
+    check_qobj_shapes(cls)
+    out = ["(* generated by gen/backend.py from the backend sources of /repo -- do not edit *)",
+           "From Qib Require Import Backend.QobjModel.", "Local Open Scope Z_scope.", "",
+           gen_validate(cls), gen_pconf(), gen_ctrl_guard(),
+           "Definition gen_vt : vtables :=\n"
+           "  {| vt_shots_refused := gen_shots_refused; vt_scope := gen_scope; vt_empty_guard := gen_empty_guard;\n"
+           "     vt_range_refused := gen_range_refused; vt_params_ok := gen_params_ok;\n"
+           "     vt_ctrl_std_checked := gen_ctrl_std_checked |}.\n"]
+    # configuration records: obtained by running the code
+    from qib.backend.wmi import WMIQSimProcessor, WMIQCProcessor
+    out.append("(* obtained by running WMIQSimProcessor.configuration() / WMIQCProcessor.configuration() *)")
+    out.append(coq_cfg("gen_cfg_qsim", WMIQSimProcessor.configuration()))
+    out.append(coq_cfg("gen_cfg_qc", WMIQCProcessor.configuration()))
+    return "\n".join(out)
+
+
 if __name__ == "__main__":
     which = sys.argv[1] if len(sys.argv) > 1 else "life"
     print(generate_life() if which == "life" else generate_qobj())
